@@ -796,6 +796,44 @@ func (m *machine) step() {
 		p := simstorage.UpdateParams{From: a.owner, AllocID: a.id, Extend: true, Lock: currency.Coin(rapid.SampledFrom([]uint64{50 * zcn, 0, zcn}).Draw(t, "lock"))}
 		m.cur = curOp{op: op, alloc: a, from: a.owner, wasOpen: a.open}
 		m.do(w.UpdateAllocation(p))
+	case "replaceGrow":
+		// one request that replaces a blobber AND grows / extends the allocation
+		a := m.pickAlloc(true)
+		if a == nil {
+			return
+		}
+		al, found, _ := w.View().Allocation(a.id)
+		if !found || len(al.Blobbers) == 0 {
+			return
+		}
+		in := map[string]bool{}
+		for _, b := range al.Blobbers {
+			in[b.BlobberID] = true
+		}
+		var cand []*simstorage.Provider
+		for _, b := range w.Blobbers {
+			if !in[b.ID()] {
+				cand = append(cand, b)
+			}
+		}
+		if len(cand) == 0 {
+			return
+		}
+		p := simstorage.UpdateParams{From: a.owner, AllocID: a.id, Extend: true,
+			AddBlobber:    cand[rapid.IntRange(0, len(cand)-1).Draw(t, "add")],
+			RemoveBlobber: w.Blobber(al.Blobbers[rapid.IntRange(0, len(al.Blobbers)-1).Draw(t, "remove")].BlobberID),
+			SizeDelta:     rapid.SampledFrom([]int64{simstorage.GB, simstorage.GB / 4, 0, 5 * simstorage.GB}).Draw(t, "delta"),
+			Lock:          currency.Coin(rapid.SampledFrom([]uint64{50 * zcn, 5 * zcn, 0}).Draw(t, "lock"))}
+		if p.RemoveBlobber == nil {
+			return
+		}
+		m.cur = curOp{op: op, alloc: a, from: p.From, provider: p.RemoveBlobber, wasOpen: a.open}
+		m.onApplied = func(o sim.Outcome) {
+			if ok(o) {
+				delete(a.uploads, p.RemoveBlobber.ID())
+			}
+		}
+		m.do(w.UpdateAllocation(p))
 	case "blockRewards2":
 		// move to the next round at which the contract pays block rewards, then trigger them
 		period := int64(30)
